@@ -2,8 +2,12 @@
 //       type and converting in one direction is lossy.  The standard compares `*it == value`, `*it < value`,
 //       `value < *it`, `*it1 == *it2` in the types as given (usual arithmetic conversions); an implementation that
 //       first converts the element to the value's type (or the value to the element's type) gives other answers.
-//       Pairs: double/int, int/unsigned char, long long/int and the three reversed pairs.  Raw pointers, vs libstdc++.
-// -DC06_HET_PART=1: pairs 0..2   =2: pairs 3..5
+//       Pairs: double/int, int/unsigned char, long long/int and the three reversed pairs; and signed/unsigned pairs of
+//       equal width (int/unsigned, long long/unsigned long long, short/unsigned short through promotion, both
+//       directions) with negative values and values above the signed maximum: the usual arithmetic conversions
+//       apply, -1 < 1u is false.  Also the function objects (less, greater, ..., not_equal_to; transparent and typed)
+//       called directly with mixed operands.  Raw pointers, vs libstdc++.
+// -DC06_HET_PART=1: pairs 0..2   =2: pairs 3..5   =3: pairs 6..8   =4: pairs 9..11
 #include "vf.hpp"
 #include "vf_contract.hpp"
 #include "vf_algo_tests.hpp"
@@ -66,6 +70,55 @@ struct HP<5> { // value 2^32+5 -> element type int 5
     static constexpr V vv[5]           = {B32 + 5, 5, B32, -1, 0};
 };
 
+template <>
+struct HP<6> { // int -1 against unsigned: compared as 4294967295u
+    using E                            = int;
+    using V                            = unsigned;
+    static constexpr char const* name  = "ptr<int>/unsigned";
+    static constexpr E ev[5]           = {-1, 0, 1, -2, 2147483647};
+    static constexpr V vv[5]           = {4294967295u, 0u, 1u, 2147483648u, 5u};
+};
+template <>
+struct HP<7> {
+    using E                            = unsigned;
+    using V                            = int;
+    static constexpr char const* name  = "ptr<unsigned>/int";
+    static constexpr E ev[5]           = {4294967295u, 0u, 1u, 2147483648u, 5u};
+    static constexpr V vv[5]           = {-1, 0, 1, -2, 5};
+};
+template <>
+struct HP<8> {
+    using E                            = long long;
+    using V                            = unsigned long long;
+    static constexpr char const* name  = "ptr<long long>/unsigned long long";
+    static constexpr E ev[5]           = {-1, 0, 1, -9223372036854775807LL - 1, 7};
+    static constexpr V vv[5]           = {18446744073709551615ull, 0ull, 1ull, 9223372036854775808ull, 7ull};
+};
+template <>
+struct HP<9> {
+    using E                            = unsigned long long;
+    using V                            = long long;
+    static constexpr char const* name  = "ptr<unsigned long long>/long long";
+    static constexpr E ev[5]           = {18446744073709551615ull, 0ull, 1ull, 9223372036854775808ull, 7ull};
+    static constexpr V vv[5]           = {-1, 0, 1, -9223372036854775807LL - 1, 7};
+};
+template <>
+struct HP<10> { // both promoted to int: here -1 < 1 IS true, and 65535 != -1
+    using E                            = short;
+    using V                            = unsigned short;
+    static constexpr char const* name  = "ptr<short>/unsigned short";
+    static constexpr E ev[5]           = {-1, 0, 1, -32768, 7};
+    static constexpr V vv[5]           = {65535, 0, 1, 32768, 7};
+};
+template <>
+struct HP<11> {
+    using E                            = unsigned short;
+    using V                            = short;
+    static constexpr char const* name  = "ptr<unsigned short>/short";
+    static constexpr E ev[5]           = {65535, 0, 1, 32768, 7};
+    static constexpr V vv[5]           = {-1, 0, 1, -32768, 7};
+};
+
 template <typename T>
 std::string shw(std::vector<T> const& v)
 {
@@ -97,7 +150,6 @@ void t_value(Ctx& c)
     std::vector<E> m;
     for (auto const& e : c.a) { m.push_back(P::ev[e.key % 5]); }
     std::size_t const n = m.size();
-    bool const sorted   = std::is_sorted(m.begin(), m.end());
     std::string const d = "elems=" + shw(m);
     for (Pres pr : pres_for<KPtr>(n)) {
 #define HT(OP, H, EXTRA, WR, ...)                                                                                      \
@@ -158,7 +210,12 @@ void t_value(Ctx& c)
                     same(t, "range", r.get(), exp);
                 });
             }
-            if (sorted) {
+            // preconditions of the binary searches, evaluated with the mixed-type operator< itself: the range is
+            // partitioned w.r.t. e < value and w.r.t. !(value < e), and e < value implies !(value < e)
+            bool part = std::is_partitioned(m.begin(), m.end(), [&](E const& e) { return e < val; })
+                     && std::is_partitioned(m.begin(), m.end(), [&](E const& e) { return !(val < e); });
+            for (E const& e : m) { part = part && !((e < val) && (val < e)); }
+            if (part) {
                 auto lb = std::lower_bound(m.begin(), m.end(), val) - m.begin();
                 auto ub = std::upper_bound(m.begin(), m.end(), val) - m.begin();
                 bool bs = std::binary_search(m.begin(), m.end(), val);
@@ -241,9 +298,46 @@ void pair_het(Ctx& c, char const* kind, std::vector<A> const& x, std::vector<B> 
             t2.guards(q2);
             t2.done();
         }
-        if (std::is_sorted(x.begin(), x.end()) && std::is_sorted(y.begin(), y.end())) {
+        // sorted-range algorithms: both ranges sorted in their own type and after conversion to the common type
+        // (the cross-range comparisons happen there), otherwise the call has no defined result
+        using C = std::common_type_t<A, B>;
+        auto csorted = [](auto const& v) {
+            for (std::size_t i = 1; i < v.size(); ++i) {
+                if (static_cast<C>(v[i]) < static_cast<C>(v[i - 1]) || v[i] < v[i - 1]) { return false; }
+            }
+            return true;
+        };
+        if (csorted(x) && csorted(y)) {
             bool si = std::includes(x.begin(), x.end(), y.begin(), y.end());
             H2("includes(f1,l1,f2,l2)", 10, si ? "true" : "false", t.boolean("ret", t.call([&] { return etl::includes(f1, l1, f2, l2); }), si));
+            for (int op = 0; op < 5; ++op) {
+                std::vector<C> exp;
+                auto bi          = std::back_inserter(exp);
+                char const* name = "";
+                switch (op) {
+                case 0: std::merge(x.begin(), x.end(), y.begin(), y.end(), bi); name = "merge(f1,l1,f2,l2,d)"; break;
+                case 1: std::set_union(x.begin(), x.end(), y.begin(), y.end(), bi); name = "set_union(f1,l1,f2,l2,d)"; break;
+                case 2: std::set_intersection(x.begin(), x.end(), y.begin(), y.end(), bi); name = "set_intersection(f1,l1,f2,l2,d)"; break;
+                case 3: std::set_difference(x.begin(), x.end(), y.begin(), y.end(), bi); name = "set_difference(f1,l1,f2,l2,d)"; break;
+                default: std::set_symmetric_difference(x.begin(), x.end(), y.begin(), y.end(), bi); name = "set_symmetric_difference(f1,l1,f2,l2,d)"; break;
+                }
+                H2(name, 20 + op, exp.empty() ? "result-empty" : "result-nonempty", {
+                    Sink<C> s(exp.size(), pr);
+                    C* dd  = s.r.lo;
+                    C* ret = t.call([&] {
+                        switch (op) {
+                        case 0: return etl::merge(f1, l1, f2, l2, dd);
+                        case 1: return etl::set_union(f1, l1, f2, l2, dd);
+                        case 2: return etl::set_intersection(f1, l1, f2, l2, dd);
+                        case 3: return etl::set_difference(f1, l1, f2, l2, dd);
+                        default: return etl::set_symmetric_difference(f1, l1, f2, l2, dd);
+                        }
+                    });
+                    t.off("ret", ret - dd, (long)exp.size());
+                    same(t, "output", s.r.get(), exp);
+                    t.guards(s.r, "output");
+                });
+            }
         }
 #undef H2
     }
@@ -276,17 +370,64 @@ void t_ranges(Ctx& c)
     pair_het<V, E>(c, rev.c_str(), img, a, 4);
 }
 
-#if C06_HET_PART == 1
+// ---------------------------------------------------------------- the function objects themselves, mixed operands
+template <typename P>
+void t_funobj(Ctx& c)
+{
+    using E = typename P::E;
+    using V = typename P::V;
+    if (c.a.size() != 1) { return; } // independent of the sequence: once per key is plenty
+    for (int i = 0; i < 5; ++i) {
+        for (int j = 0; j < 5; ++j) {
+            E const e = P::ev[i];
+            V const v = P::vv[j];
+            char args[96];
+            std::snprintf(args, sizeof args, "e=%.17g v=%.17g", (double)e, (double)v);
+            {
+                Trial t(c, P::name, "less<>/greater<>/less_equal<>/greater_equal<>/equal_to<>/not_equal_to<>", Pres::exact, "transparent", vf::mix(i, j), "%s", args);
+                std::vector<long> obs = {etl::less<>{}(e, v), etl::less<>{}(v, e), etl::greater<>{}(e, v), etl::greater<>{}(v, e), etl::less_equal<>{}(e, v),
+                    etl::less_equal<>{}(v, e), etl::greater_equal<>{}(e, v), etl::greater_equal<>{}(v, e), etl::equal_to<>{}(e, v), etl::equal_to<>{}(v, e),
+                    etl::not_equal_to<>{}(e, v), etl::not_equal_to<>{}(v, e)};
+                std::vector<long> exp = {std::less<>{}(e, v), std::less<>{}(v, e), std::greater<>{}(e, v), std::greater<>{}(v, e), std::less_equal<>{}(e, v),
+                    std::less_equal<>{}(v, e), std::greater_equal<>{}(e, v), std::greater_equal<>{}(v, e), std::equal_to<>{}(e, v), std::equal_to<>{}(v, e),
+                    std::not_equal_to<>{}(e, v), std::not_equal_to<>{}(v, e)};
+                t.nums("results[lt,lt',gt,gt',le,le',ge,ge',eq,eq',ne,ne']", obs, exp);
+                t.done();
+            }
+            {
+                // typed forms: the argument of the other type is converted to T first
+                Trial t(c, P::name, "less<T>/greater<T>/less_equal<T>/greater_equal<T>/equal_to<T>/not_equal_to<T>", Pres::exact, "typed", vf::mix(i, j) + 1, "%s", args);
+                std::vector<long> obs = {etl::less<E>{}(e, v), etl::less<V>{}(e, v), etl::greater<E>{}(e, v), etl::greater<V>{}(e, v), etl::less_equal<E>{}(e, v),
+                    etl::less_equal<V>{}(e, v), etl::greater_equal<E>{}(e, v), etl::greater_equal<V>{}(e, v), etl::equal_to<E>{}(e, v), etl::equal_to<V>{}(e, v),
+                    etl::not_equal_to<E>{}(e, v), etl::not_equal_to<V>{}(e, v)};
+                std::vector<long> exp = {std::less<E>{}(e, v), std::less<V>{}(e, v), std::greater<E>{}(e, v), std::greater<V>{}(e, v), std::less_equal<E>{}(e, v),
+                    std::less_equal<V>{}(e, v), std::greater_equal<E>{}(e, v), std::greater_equal<V>{}(e, v), std::equal_to<E>{}(e, v), std::equal_to<V>{}(e, v),
+                    std::not_equal_to<E>{}(e, v), std::not_equal_to<V>{}(e, v)};
+                t.nums("results[lt<E>,lt<V>,gt<E>,gt<V>,le<E>,le<V>,ge<E>,ge<V>,eq<E>,eq<V>,ne<E>,ne<V>]", obs, exp);
+                t.done();
+            }
+        }
+    }
+}
+
+#define C06_HP_TESTS(I, N) {N "_value", t_value<HP<I>>}, {N "_ranges", t_ranges<HP<I>>}, {N "_funobj", t_funobj<HP<I>>}
+#if C06_HET_PART == 3
+Test const kTests[] = {C06_HP_TESTS(6, "int_unsigned"), C06_HP_TESTS(7, "unsigned_int"), C06_HP_TESTS(8, "llong_ullong")};
+#elif C06_HET_PART == 4
+Test const kTests[] = {C06_HP_TESTS(9, "ullong_llong"), C06_HP_TESTS(10, "short_ushort"), C06_HP_TESTS(11, "ushort_short")};
+#elif C06_HET_PART == 1
 Test const kTests[] = {
     {"double_int_value", t_value<HP<0>>}, {"double_int_ranges", t_ranges<HP<0>>},
     {"int_uchar_value", t_value<HP<1>>}, {"int_uchar_ranges", t_ranges<HP<1>>},
     {"llong_int_value", t_value<HP<2>>}, {"llong_int_ranges", t_ranges<HP<2>>},
+    {"double_int_funobj", t_funobj<HP<0>>}, {"int_uchar_funobj", t_funobj<HP<1>>}, {"llong_int_funobj", t_funobj<HP<2>>},
 };
 #else
 Test const kTests[] = {
     {"int_double_value", t_value<HP<3>>}, {"int_double_ranges", t_ranges<HP<3>>},
     {"uchar_int_value", t_value<HP<4>>}, {"uchar_int_ranges", t_ranges<HP<4>>},
     {"int_llong_value", t_value<HP<5>>}, {"int_llong_ranges", t_ranges<HP<5>>},
+    {"int_double_funobj", t_funobj<HP<3>>}, {"uchar_int_funobj", t_funobj<HP<4>>}, {"int_llong_funobj", t_funobj<HP<5>>},
 };
 #endif
 std::size_t const kNumTests = sizeof(kTests) / sizeof(kTests[0]);
@@ -295,6 +436,10 @@ std::size_t const kNumTests = sizeof(kTests) / sizeof(kTests[0]);
 
 #if C06_HET_PART == 1
 C06_MAIN("C06_hetero_a")
-#else
+#elif C06_HET_PART == 2
 C06_MAIN("C06_hetero_b")
+#elif C06_HET_PART == 3
+C06_MAIN("C06_hetero_c")
+#else
+C06_MAIN("C06_hetero_d")
 #endif
